@@ -45,6 +45,10 @@ C15used == /\ \A U \in Hidden \ {{}}, t \in BOOLEAN : AllLeavesUsed("zkpok", U, 
 C17noOpenings == \A U \in Hidden \ {{}} :
                    /\ Format("zkpok", U, TRUE) = FormatWith("zkpok", U, TRUE, {"value"})
                    /\ Format("spok", U, FALSE) = FormatWith("spok", U, FALSE, {"value"})
+\* C17 (range proofs inside the proofs): the library's split of the randomness has no public pair; a split
+\* that derives the upper side from the lower side has one (the model of the defect the check must catch)
+C17split == /\ NoPublicPair(SplitParts(FALSE)) /\ AllFourCancel(SplitParts(FALSE))
+            /\ ~NoPublicPair(SplitParts(TRUE))
 C19masks == \A ln \in {1024, 2048, 3072} :
               /\ \A r \in MaskTable(ln) : MasksDivC(r) /\ Masks(r)
               /\ QuotientLeaks(ln) = {}
